@@ -39,11 +39,19 @@ def replay_payload(payload, monitors_for):
 
 def sweep(rep, scoped_cases, monitors_for, budgets=None, light=True,
           tie=False, deadline=None, max_runs_per_case=20000,
-          count_states=True, sample_every=None, judge_run=None):
+          count_states=True, sample_every=None, judge_run=None,
+          static_delay_budget=1):
     """scoped_cases: list of (scope name, case).  Mutates ``rep``."""
     budgets = budgets or {}
     rep.budgets = dict(budgets)
+    if budgets.get("delay", 0) > static_delay_budget:
+        rep.budgets["delay_for_static_pairings"] = static_delay_budget
     scoped_cases = list(scoped_cases)
+    if deadline is None:
+        import os
+        cap = float(os.environ.get("VERIF_TIME_CAP", "0") or 0) or (
+            1500 if rep.tier == "thorough" else 400)
+        deadline = rep.t0 + cap
 
     def work(i, item):
         scope, case = item
@@ -81,8 +89,16 @@ def sweep(rep, scoped_cases, monitors_for, budgets=None, light=True,
                     "task_table": {k: [v[0], v[1]] for k, v in
                                    runmod.task_table(r.sim).items()}}
 
+        b = budgets
+        if case["alg"]["kind"] in ("dynamic", "greedy") \
+                and budgets.get("delay", 0) > static_delay_budget:
+            # all static assignments are enumerated: their product with two
+            # delayed tasks does not fit the tier's time cap
+            b = dict(budgets, delay=static_delay_budget)
+        if case.get("budget_override"):
+            b = dict(b, **case["budget_override"])
         n, capped = engine.explore_case(
-            case, mk, budgets, hz, light, tie, on_run,
+            case, mk, b, hz, light, tie, on_run,
             max_runs=max_runs_per_case, keep_snaps=True)
         out["runs"] = n
         out["capped"] = capped
